@@ -52,7 +52,6 @@ VARIANTS = {
     'ili-status': ('ili\tstatus', [('i1', 'deprecated'), ('i2', 'provisional'), ('i8', 'active')]),
     'ili-definition': ('ili\tdefinition', [('i2', 'only def'), ('i3', '')]),
     'short-rows': ('ili\tstatus\tdefinition', [('i1',), ('i2', 'deprecated'), ('i3', 'active', 'd3')]),
-    'reordered': ('definition\tili\tstatus', [('dd', 'i2', 'provisional'), ('', 'i1', 'active')]),
     'empty': ('ili\tstatus\tdefinition', []),
     'gz': ('ili\tstatus\tdefinition', [('i2', 'active', 'zipped')]),
 }
